@@ -278,6 +278,9 @@ func (g *Gen) goValue(depth int, withBad bool) *GV {
 			for i := 0; i < 1+g.n(3); i++ {
 				l.Elems = append(l.Elems, g.scalarOfKind(kind))
 			}
+			if g.chance(1, 6) {
+				return &GV{K: "L", NilRef: true, Typed: true}
+			}
 			l.NilRef = false
 			return l
 		}
@@ -287,6 +290,9 @@ func (g *Gen) goValue(depth int, withBad bool) *GV {
 		return l
 	case 11:
 		n := g.n(4)
+		if g.chance(1, 12) {
+			return &GV{K: "M", NilRef: true, Typed: true}
+		}
 		m := &GV{K: "M", NilRef: n == 0 && g.chance(1, 2), Typed: g.chance(1, 3), NKey: g.chance(1, 3)}
 		if !m.NKey && g.chance(1, 4) {
 			m.AKey = true
@@ -1007,6 +1013,54 @@ func casesC12(g *Gen) []*Case {
 		c.Oracle = func(c *Case, impl string) string { return wantErr(part)(impl) }
 		cs = append(cs, c)
 	}
+	// types that carry String / Error / Marshal* methods are converted by their kind, never through the method
+	{
+		data := gvMap("p", gvNamed(11), "e", gvNamed(12), "d", gvNamed(13), "lang", gvNamed(14), "lvl", gvNamed(15), "dur", gvNamed(16), "f", gvNamed(18), "ok", gvNamed(19), "c", gvNamed(20),
+			"list", gvList(gvNamed(11), gvNamed(14), gvNamed(15)), "pp", &GV{K: "P", Elems: []*GV{gvNamed(11)}})
+		for src, want := range map[string]string{
+			"{{ p.amount }}|{{ p.Cur }}|{{ p }}":                                   "12|EUR|{Amount: 12, Cur: EUR}",
+			"{{ pp.amount }}|{{ pp.cur }}":                                          "12|EUR",
+			"{{ e.code }}|{{ e.msg }}|{{ e }}":                                     "7|boom|{Code: 7, Msg: boom}",
+			"{{ d.title }}|{{ d.n }}|{{ d }}":                                      "T|2|{N: 2, Title: T}",
+			"{{ lang }}|{{ lang == \"en\" }}|{{ lang.len() }}|{{ lang + \"!\" }}":   "en|1|2|en!",
+			"{{ lvl }}|{{ lvl + 1 }}|{{ lvl == 3 }}":                               "3|4|1",
+			"{{ dur }}|{{ dur / 1000000 }}":                                        "1500000000|1500",
+			"{{ f }}|{{ f + 0.5 }}":                                                "2.5|3.0",
+			"{{ ok ? \"y\" : \"n\" }}|{{ ok }}":                                    "y|1",
+			"{{ list[0].amount }}|{{ list[1] }}|{{ list[2] }}|{{ list[1].len() }}": "12|en|3|2",
+			"@each(x in c.prices){{ x.amount }}{{ x.cur }},@end":                   "1a,2b,",
+			"{{ c.byName.x.amount }}{{ c.byName.x.cur }}":                          "3c",
+			"@each(l in c.langs){{ l }},@end@each(l in c.levels){{ l }},@end":      "de,fr,1,2,",
+			"{{ c.errs[0].code }}{{ c.errs[0].msg }}|{{ c.strs[0].amount }}|{{ c.strs[1] }}": "1e1|4|it",
+		} {
+			c := evalCase("types_with_methods", src, data)
+			c.Oracle = expectOut(want)
+			cs = append(cs, c)
+		}
+	}
+	// nil slices and nil maps are empty arrays and empty objects (a nil pointer is nil): typed or not, at the root, in fields, in containers
+	{
+		nl := func(typed bool) *GV { return &GV{K: "L", NilRef: true, Typed: typed} }
+		nm := func(typed bool) *GV { return &GV{K: "M", NilRef: true, Typed: typed} }
+		data := gvMap("tags", nl(true), "items", nl(false), "attrs", nm(true), "m", nm(false), "bag", gvNamed(17), "inner", gvMap("l", nl(true), "m", nm(true)),
+			"ls", gvList(nl(true), nl(false), nm(true)), "pl", &GV{K: "P", Elems: []*GV{nl(true)}}, "np", &GV{K: "PN"})
+		for src, want := range map[string]string{
+			"{{ tags.len() }}|{{ items.len() }}|@each(t in tags)x@else none@end|@each(t in items)x@else none@end": "0|0| none| none",
+			"[{{ tags }}]|{{ attrs }}|{{ m }}|{{ tags ? 1 : 0 }}|{{ attrs ? 1 : 0 }}|{{ m ? 1 : 0 }}":               "[]|{}|{}|1|1|1",
+			"{{ tags.append(\"a\").len() }}|{{ items.append(1)[0] }}|{{ tags.join(\",\") }}|{{ tags.contains(\"a\") }}": "1|1||0",
+			"{{ bag.tags.len() }}|{{ bag.items.len() }}|{{ bag.attrs }}|{{ bag.any }}|{{ bag.ptr ? 1 : 0 }}|@each(t in bag.tags)x@else none@end": "0|0|{}|{}|0| none",
+			"{{ inner.l.len() }}|{{ inner.m }}|{{ ls[0].len() }}|{{ ls[1].len() }}|{{ ls[2] }}|{{ ls.len() }}":          "0|{}|0|0|{}|3",
+			"{{ pl.len() }}|{{ np ? 1 : 0 }}|{{ np }}|":                                                            "0|0||",
+			"{{ bag }}": "{Any: {}, Attrs: {}, Items: , Ptr: , Tags: }",
+		} {
+			c := evalCase("nil_containers", src, data)
+			c.Oracle = expectOut(want)
+			cs = append(cs, c)
+		}
+		for _, src := range []string{"@dump(tags)", "@dump(attrs)", "@dump(bag)", "@dump(np)"} {
+			cs = append(cs, evalCase("nil_containers", src, data))
+		}
+	}
 	// maps whose keys are not strings have no counterpart in a template: the call fails (and says so every time)
 	for _, kind := range []string{"intkeymap", "boolkeymap", "mixedkeymap", "structkeymap", "emptyintkeymap", "floatkeymap"} {
 		for _, wrap := range []func(*GV) *GV{func(x *GV) *GV { return x }, func(x *GV) *GV { return gvList(gvInt(1), x) }, func(x *GV) *GV { return gvMap("in", x) },
@@ -1110,6 +1164,29 @@ func casesC12(g *Gen) []*Case {
 			}
 		}
 		cs = append(cs, c)
+		// the shape of a compound leaf: an array has a length and iterates that many times, an object prints in braces
+		if leaf.K == "L" {
+			ps := pathSrc("d", path, g)
+			n := len(leaf.Elems)
+			c3 := evalCase("leaf_shape", "[{{ "+ps+".len() }}]", data)
+			c3.Oracle = expectOut(fmt.Sprintf("[%d]", n))
+			if n == 0 {
+				c3 = evalCase("leaf_shape", "[{{ "+ps+".len() }}|@each(v in "+ps+")x@else"+"e@end]", data)
+				c3.Oracle = expectOut("[0|e]")
+			}
+			cs = append(cs, c3)
+		}
+		if leaf.K == "M" || leaf.K == "T" {
+			c3 := evalCase("leaf_shape", "{{ "+pathSrc("d", path, g)+" }}", data)
+			c3.Oracle = func(c *Case, impl string) string {
+				out, ok := outOf(impl)
+				if !ok || !strings.HasPrefix(out, "{") || !strings.HasSuffix(out, "}") {
+					return "an object must print in braces: " + describe(impl)
+				}
+				return ""
+			}
+			cs = append(cs, c3)
+		}
 		// the whole value prints / dumps / iterates without failing
 		if g.chance(1, 4) {
 			c2 := evalCase("whole_value", g.pick([]string{"{{ d }}", "@dump(d)"}), data)
